@@ -324,7 +324,7 @@ pub fn run_psess(args: &[Val]) -> Val {
         let wd = std::thread::spawn(move || {
             let t0 = Instant::now();
             while !wd_done.load(Ordering::SeqCst) {
-                if t0.elapsed() > Duration::from_millis(700) {
+                if t0.elapsed() > Duration::from_millis(2500) {
                     wd_blocked.store(true, Ordering::SeqCst);
                     let _ = wsock.shutdown(std::net::Shutdown::Both);
                     return;
